@@ -27,7 +27,9 @@ pub fn spec() -> Spec {
     }
 }
 
-const NETWORKS: [&str; 7] = ["mainnet", "bitcoin", "signet", "testnet", "testnet4", "regtest", "unknown"];
+// the empty name is a legal configuration for a node that runs without a Bitcoin RPC connection
+// (FAIL_ON_BITCOIN_RPC_ERROR=false); it is one more network a directory can be created or reopened under
+const NETWORKS: [&str; 8] = ["mainnet", "bitcoin", "signet", "testnet", "testnet4", "regtest", "unknown", ""];
 
 #[derive(Clone, Debug, PartialEq)]
 enum Outcome {
@@ -44,6 +46,9 @@ struct Server {
 fn cfg(network: &str, traces: bool, dir: &Path, port: u16, btc: &str) -> brc20_prog::Brc20ProgConfig {
     let mut c = rpc::make_config(network, traces, btc, dir.to_str().unwrap());
     c.brc20_prog_rpc_server_url = format!("127.0.0.1:{}", port);
+    if network.is_empty() {
+        c.fail_on_bitcoin_rpc_error = false;
+    }
     c
 }
 
